@@ -175,13 +175,20 @@ def run_sessions(pid, with_comments, verdict_filter, n_quick, n_thorough, rule_t
     ok_sessions = n_sessions - len(bad_sessions)
     samples = []
     stats = collections.Counter()
+    # reference for the 'comment absorbs code' shape: what the printer emits for the same document without its comments
+    plain = {}
+    if with_comments and bad_sessions:
+        idxs = sorted(bad_sessions)
+        pres = vlib.execute([{"id": k, "op": "parse", "roundtrip": True, "cddl": strip_comments(docs[i][1])} for k, i in enumerate(idxs)])
+        for i, r in zip(idxs, pres):
+            plain[i] = r["obs"].get("fmt") or strip_comments(docs[i][1])
     for idx, v in sorted(bad_sessions.items()):
         if not verdict_filter(v):
             stats["other-property"] += 1
             continue
         rules, text, src = docs[idx]
         o = res[idx]["obs"]
-        diag = diagnose_comments(o, src, v) if with_comments else diagnose(o, v)
+        diag = diagnose_comments(o, src, v, plain.get(idx, text)) if with_comments else diagnose(o, v)
         sig = v + ":" + diag
         stats[sig] += 1
         if with_comments and diag in fsig:
@@ -231,6 +238,26 @@ def diagnose(o, v):
     return "x"
 
 
+def strip_comments(text):
+    """the text with every comment (';' outside literals to the end of the line) removed"""
+    out, i, n = [], 0, len(text)
+    while i < n:
+        c = text[i]
+        if c in "\"'":
+            j = i + 1
+            while j < n and text[j] != c:
+                j += 2 if text[j] == "\\" else 1
+            out.append(text[i:j + 1])
+            i = j + 1
+        elif c == ";":
+            j = text.find("\n", i)
+            i = n if j < 0 else j
+        else:
+            out.append(c)
+            i += 1
+    return "".join(out)
+
+
 def comment_tokens(text):
     """texts of the comments of a CDDL text: from ';' outside string / byte-string literals to the end of the line"""
     out, i, n = [], 0, len(text)
@@ -256,23 +283,46 @@ def comment_tokens(text):
     return out
 
 
-def diagnose_comments(o, src, v=""):
-    """C16 failure shapes: does some comment of the formatted text contain more than a source comment (code absorbed)?"""
+def diagnose_comments(o, src, v="", text=""):
+    """C16 failure shapes: does some comment of the formatted text consist of a source comment followed by CODE of the
+    source document (code absorbed)?  A comment whose text merely differs from every source comment is not this shape."""
     f1 = o.get("fmt") or ""
     srcs = [s.strip() for s in src]
-    absorbed = [c for c in comment_tokens(f1) + comment_tokens(o.get("fmt2") or "") if c not in src and c.strip() not in srcs]
+    code = code_only(text)          # text: the printer's output for the same document WITHOUT comments
+
+    def absorbs(c):
+        if c in src or c.strip() in srcs:
+            return False
+        for s_ in src:
+            if c.startswith(s_.rstrip()) or c.startswith(s_):
+                # what follows the source comment may itself contain further (absorbed) source comments: take them out,
+                # what is left must be code of the document
+                rest = c[len(s_.rstrip()):]
+                for s2 in sorted(set(src), key=len, reverse=True):
+                    for form in (";" + s2, ";" + s2.rstrip()):
+                        if len(form) > 1:
+                            rest = rest.replace(form, " ")
+                rem = code_only(rest, semicolon_is_blank=True)
+                if rem and rem in code:
+                    return True
+        return False
+    absorbed = [c for c in comment_tokens(f1) + comment_tokens(o.get("fmt2") or "") if absorbs(c)]
     if absorbed:
         return "comment-absorbs-code"
     c1 = sorted(comments_of_debug(o.get("comments", "")))
     c2 = sorted(comments_of_debug(o.get("comments2", ""))) if o.get("ok2") else None
     if c2 is not None and c1 != c2:
+        if sorted(c.rstrip(" \t") for c in c1) == sorted(c.rstrip(" \t") for c in c2):
+            return "comment-trailing-blanks-trimmed"
+        if len(c2) == len(c1):
+            return "comment-text-changed"
         return "attached-comment-not-emitted" if len(c2) < len(c1) else "comment-duplicated"
     if v == "bad:not-idempotent" and code_only(o.get("fmt") or "") == code_only(o.get("fmt2") or ""):
         return "layout-not-idempotent"
     return "other"
 
 
-def code_only(text):
+def code_only(text, semicolon_is_blank=False):
     """the text without comments, whitespace and (optional) commas"""
     out, i, n = [], 0, len(text)
     while i < n:
@@ -283,10 +333,10 @@ def code_only(text):
                 j += 2 if text[j] == "\\" else 1
             out.append(text[i:j + 1])
             i = j + 1
-        elif c == ";":
+        elif c == ";" and not semicolon_is_blank:
             j = text.find("\n", i)
             i = n if j < 0 else j
-        elif c in " \t\r\n,":
+        elif c in " \t\r\n,;":
             i += 1
         else:
             out.append(c)
